@@ -164,7 +164,7 @@ func c01Judge(rep *core.Report, c *CaseResult) {
 		} else if s.Features["pkgname_differs_from_dir"] == "true" {
 			feat["pkgmode"] = "differs"
 		}
-		if m := regexp.MustCompile(`undefined: (\w+)$`).FindStringSubmatch(msg); m != nil {
+		if m := regexp.MustCompile(`undefined: (\w+)(\.\w+)?$`).FindStringSubmatch(msg); m != nil {
 			feat["undefined"] = m[1]
 		}
 		v := &core.Violation{Property: "C01", Monitor: "typecheck", Symptom: sym, Features: feat, Case: s.ID,
@@ -301,7 +301,7 @@ var (
 	reIdent  = regexp.MustCompile(`\b(cv|pre|pos|S|D|SN|DN|SM|AX|Conv[A-Z])N\b`)
 )
 
-// corpusC01 holds the witness of KF-C01-unimported-package-name-collision.
+// corpusC01 holds the witness of KF-C01-unimported-package-unresolvable.
 func corpusC01() []*scen.Scenario {
 	b := scen.NewBuilder(nil, scen.Profile{}, "kw-c01-collide", "kwc01a")
 	b.PkgNameMode = "alias-collide"
@@ -311,5 +311,13 @@ func corpusC01() []*scen.Scenario {
 	b.Struct("", "D", "A m.DN1", "L []ext.Shape")
 	m := &scen.Method{Name: "Collide", Src: scen.Param{Type: "*S"}, Dst: scen.Param{Type: "*D"}, Notations: []scen.Notation{scen.N("typecast")},
 		Probes: []scen.Probe{{Dst: "A", Mech: "diff", DstT: "m.DN1", SrcT: "m.SN1"}, {Dst: "L", Mech: "slice", DstT: "[]ext.Shape", SrcT: "[]ext.Shape"}}}
-	return []*scen.Scenario{b.Manual(m)}
+	b2 := scen.NewBuilder(nil, scen.Profile{}, "kw-c01-differs", "kwc01b")
+	b2.PkgNameMode = "differs"
+	b2.Struct("m", "SN1", "X int")
+	b2.Struct("m", "DN1", "X int")
+	b2.Struct("", "S", "A m.SN1")
+	b2.Struct("", "D", "A m.DN1")
+	m2 := &scen.Method{Name: "Differs", Src: scen.Param{Type: "*S"}, Dst: scen.Param{Type: "*D"}, Notations: []scen.Notation{scen.N("typecast")},
+		Probes: []scen.Probe{{Dst: "A", Mech: "diff", DstT: "m.DN1", SrcT: "m.SN1"}}}
+	return []*scen.Scenario{b.Manual(m), b2.Manual(m2)}
 }
